@@ -11,8 +11,13 @@ the offset at which the token starts, the offset of `l.Position()` when `newToke
 called (its end), the offset at which the next call resumes and how many runes were looked at.
 Positions (line, column, lineStart) are a pure function of an offset (`posAt`).
 
-Impl, defects included: after a block comment the same `Next()` call does not look for
-another comment (`start true`), and it keeps the token start it recorded before the comment.
+Impl: `Next()` skips any number of block comments and then a line comment (`start true` =
+block comments were already skipped in this call), and a token after block comments keeps the
+token start recorded before the first of them.  This is the lexer as repaired by
+`fix: skip every comment in front of a token, not only the first block comment` and
+`fix: do not take the `*` of an opening `/*` for the start of the closing `*/``; the machine
+before the repairs is kept at the end of the file as `preFixStepChar` / `preFixLexKL`
+(HISTORICAL).
 Core Lean only.
 -/
 namespace Risor.C20
@@ -103,13 +108,14 @@ def accepts : NumMode → Nat → Bool
   | .hex, c => isDigit c || c == 120 || (97 ≤ c && c ≤ 102) || (65 ≤ c && c ≤ 70)
 
 inductive St where
-  /-- skipping tabs and spaces before a token; `true` = a block comment was already skipped
-      in this call of `Next`, so comments are no longer recognised (as coded) -/
+  /-- skipping tabs and spaces before a token; `true` = block comments were already skipped
+      in this call of `Next`: the token start recorded before the first of them is kept -/
   | start (afterBlock : Bool)
   | lineComment
-  /-- saw `/` with comments still recognisable -/
+  /-- saw `/`: a comment opener, `/=` or `/` -/
   | slash
-  /-- inside `/* … `; `star` = the previous rune was `*` (the opener's own `*` counts) -/
+  /-- inside `/* … `; `star` = the previous rune was a `*` of the body (the opener's own `*`
+      does not count) -/
   | block (star : Bool)
   /-- saw the first rune of a possibly two-rune operator -/
   | op1 (c : Nat)
@@ -145,7 +151,7 @@ inductive Step where
   | fail (cls : String)
   deriving DecidableEq, Repr
 
-/-- as coded after a block comment: the token start recorded before the comment is kept -/
+/-- as coded after block comments: the token start recorded before the first comment is kept -/
 def stripFresh : Step → Step
   | .more s _ => .more s false
   | .emit k l m _ => .emit k l m false
@@ -187,11 +193,11 @@ def numTail (m : NumMode) (acc : Chars) (c : Nat) : Step :=
 def stepChar : St → Nat → Step
   | .start ab, c =>
     if isBlank c then .more (.start ab) false
-    else if ab then
-      -- as coded: no comment detection any more, token start not refreshed
-      stripFresh (dispatch c)
+    -- a line comment ends in `return l.Next()`: the token after it has a fresh start
     else if c == 35 then .more .lineComment true
-    else if c == 47 then .more .slash true
+    -- after block comments the token start is not refreshed (as coded)
+    else if c == 47 then .more .slash (!ab)
+    else if ab then stripFresh (dispatch c)
     else dispatch c
   | .lineComment, c =>
     if c == 10 then .emit "EOL" [10] .consume true
@@ -199,7 +205,7 @@ def stepChar : St → Nat → Step
     else .more .lineComment false
   | .slash, c =>
     if c == 47 then .more .lineComment false
-    else if c == 42 then .more (.block true) false
+    else if c == 42 then .more (.block false) false
     else match lookup2 47 c with
       | some k => .emit k [47, c] .consume false
       | none => .emit "/" [47] .pushback false
@@ -349,7 +355,7 @@ def lexPos : Nat → Chars → Nat → String → List PTok
 /-- the whole source: every call of `Next` consumes at least one rune, so `length + 2` calls suffice -/
 def lexAll (src : Chars) : List PTok := lexPos (src.length + 2) src 0 ""
 
-/-! ### guards used by the theorems (decidable, named in known_findings.json) -/
+/-! ### guards used by the theorems (decidable) -/
 
 /-- does a block comment whose previous rune was (`star`) / was not a `*` close inside `body` -/
 def closesIn : Bool → Chars → Bool
@@ -359,19 +365,15 @@ def closesIn : Bool → Chars → Bool
 /-- a block comment body in the usual sense: no `*/` inside (and no NUL) -/
 def properBody (body : Chars) : Bool := !closesIn false body && !body.contains 0
 
-/-- what the lexer needs: additionally the body must not begin with `/`, because the opener's
-    own `*` is taken for the star of a closing `*/` -/
-def okBody (body : Chars) : Bool := !closesIn true body && !body.contains 0
+/-- a run of block comments, each followed by blanks: `/*b₁*/ws₁/*b₂*/ws₂…` (the items are
+    (body, blanks after the comment)) -/
+def commentRun : List (Chars × Chars) → Chars
+  | [] => []
+  | (body, ws) :: r => [47, 42] ++ body ++ [42, 47] ++ (ws ++ commentRun r)
 
-/-- `slashBody body`: the recorded defect's guard -/
-def slashBody (body : Chars) : Bool := body.head? == some 47
-
-/-- after optional blanks the text goes on with another comment (`#`, `//` or `/*`) -/
-def commentFollows : Chars → Bool
-  | [] => false
-  | c :: cs =>
-    if isBlank c then commentFollows cs
-    else c == 35 || (c == 47 && (cs.head? == some 47 || cs.head? == some 42))
+/-- every body is a proper comment body, every separator is made of spaces and tabs -/
+def commentRunOk (cs : List (Chars × Chars)) : Bool :=
+  cs.all fun p => properBody p.1 && p.2.all isBlank
 
 /-- `cutsAt fuel pre b prev`: lexing `pre` followed by the blank `b` reaches a token boundary
     exactly at the end of `pre` (or inside its trailing blanks), every token before it having
@@ -480,5 +482,73 @@ def diagOk (src : Chars) (line col : Nat) (quoted : Chars) : Bool :=
     repair (now: where the repaired and the pre-fix counts coincide, `render_single_line_unchanged`) -/
 def singleLineSpan (src : Chars) (s e : Nat) : Bool :=
   s ≤ e && (posAt src s).line == (posAt src e).line
+
+/-! ### HISTORICAL: the lexer before the repair of its two block-comment defects
+
+    (`C20-adjacent-comments`, `C20-block-comment-body-starting-with-slash`; both fixed.)
+    Before the repairs `Lexer.Next` skipped at most ONE block comment per call and then no
+    longer looked for comments, and `skipMultiLineComment` began to look for `*/` at the
+    opener's own `*`.  The machine below differs from `stepChar` in exactly these two places;
+    it is kept so that the defects stay documented by checked statements
+    (`C20_fixed_adjacent_comments_were_tokens`, `C20_fixed_slash_body_closed_early` in
+    Props.lean).  Nothing else uses it. -/
+
+/-- HISTORICAL: `stepChar` before the repairs -/
+def preFixStepChar : St → Nat → Step
+  | .start ab, c =>
+    if isBlank c then .more (.start ab) false
+    else if ab then
+      -- pre-fix: after one block comment no comment detection any more
+      stripFresh (dispatch c)
+    else if c == 35 then .more .lineComment true
+    else if c == 47 then .more .slash true
+    else dispatch c
+  | .slash, c =>
+    if c == 47 then .more .lineComment false
+    -- pre-fix: the opener's own `*` counts as the star of a closing `*/`
+    else if c == 42 then .more (.block true) false
+    else match lookup2 47 c with
+      | some k => .emit k [47, c] .consume false
+      | none => .emit "/" [47] .pushback false
+  | s, c => stepChar s c
+
+/-- HISTORICAL: `run` over `preFixStepChar` -/
+def preFixRun : St → Chars → Nat → Nat → Res
+  | s, [], i, st => finish (preFixStepChar s 0) i st
+  | s, c :: cs, i, st =>
+    match preFixStepChar s c with
+    | .more s' mark => preFixRun s' cs (i + 1) (if mark then i else st)
+    | r => finish r i st
+
+/-- HISTORICAL: one call of the pre-fix `Lexer.Next` -/
+def preFixScan (rest : Chars) (prev : String) : Res :=
+  let r := preFixRun (.start false) rest 0 0
+  { r with out := fixOut prev r.out }
+
+/-- HISTORICAL: the pre-fix token stream (kinds and literals) -/
+def preFixLexKL : Nat → Chars → String → List Out
+  | 0, _, _ => []
+  | f + 1, rest, prev =>
+    let r := preFixScan rest prev
+    match r.out with
+    | .tok k l => if k == "EOF" then [.tok k l] else .tok k l :: preFixLexKL f (rest.drop r.next) k
+    | o => [o]
+
+/-- HISTORICAL: what the pre-fix lexer needed of a comment body: additionally it must not begin
+    with `/`, because the opener's own `*` was taken for the star of a closing `*/` (the guard
+    `lex_block_comment_invariant_partial` carried) -/
+def okBody (body : Chars) : Bool := !closesIn true body && !body.contains 0
+
+/-- HISTORICAL: `slashBody body`, the guard of the repaired defect
+    `C20-block-comment-body-starting-with-slash` -/
+def slashBody (body : Chars) : Bool := body.head? == some 47
+
+/-- HISTORICAL: after optional blanks the text goes on with another comment (`#`, `//` or `/*`):
+    the guard of the repaired defect `C20-adjacent-comments` -/
+def commentFollows : Chars → Bool
+  | [] => false
+  | c :: cs =>
+    if isBlank c then commentFollows cs
+    else c == 35 || (c == 47 && (cs.head? == some 47 || cs.head? == some 42))
 
 end Risor.C20
